@@ -133,7 +133,8 @@ def retry_cfg(draw, p):
     mu = draw(st.sampled_from([None, None, None, 0, 1, 2, 3, 4]))
     cfg["max_unknown"] = mu
     if chance(draw, 0.5, "s10"):
-        cfg["per_class"] = draw(st.dictionaries(st.sampled_from(ALL), st.integers(0, 4), max_size=3))
+        # caps mostly on the retryable classes (a cap on a non-retryable class can never matter)
+        cfg["per_class"] = draw(st.dictionaries(st.sampled_from(RETRYABLE * 3 + ALL), st.sampled_from([0, 1, 1, 2, 2, 3, 4]), max_size=3))
     hostile = p.get("hostile_values", True)
     styles = p.get("styles", ("ctx", "ctx", "legacy", "obj"))
     max_ticks = p.get("max_delay_ticks", 128)
